@@ -100,6 +100,13 @@ class OrderEval:
                 continue
             elif isinstance(st, ast.Assign) and len(st.targets) == 1 and isinstance(st.targets[0], ast.Name):
                 env[st.targets[0].id] = self.ev(st.value, env)
+            elif isinstance(st, ast.Assign) and len(st.targets) == 1 and isinstance(st.targets[0], ast.Tuple) \
+                    and all(isinstance(x, ast.Name) for x in st.targets[0].elts):
+                v = self.ev(st.value, env)
+                if not isinstance(v, tuple) or len(v) != len(st.targets[0].elts):
+                    raise Unsupported("tuple unpacking of a non-tuple", st)
+                for x, val in zip(st.targets[0].elts, v):
+                    env[x.id] = val  # type: ignore[attr-defined]
             else:
                 raise Unsupported(f"statement kind {type(st).__name__} in an origin comparison method", st)
 
@@ -170,6 +177,10 @@ class OrderEval:
             raise Unsupported("addition", e)
         if isinstance(e, ast.JoinedStr):
             return "<message>"
+        if isinstance(e, ast.IfExp):
+            return self.ev(e.body, env) if self.ev(e.test, env) else self.ev(e.orelse, env)
+        if isinstance(e, ast.Tuple):
+            return tuple(self.ev(x, env) for x in e.elts)
         if isinstance(e, ast.Call):
             fn = dotted(e.func)
             if fn == "isinstance" and len(e.args) == 2:
